@@ -36,8 +36,40 @@ def wr1(p, res, restrict=None, rule="WR-1"):
                 continue
             res.bad(rule, f.pretty, "stale-limb:%s" % v.kind, "%s (overwrite-type operation): %s" % (f.pretty, v.msg), site=f.where(v.line))
         else:
-            res.undec(rule, "%s: %s" % (f.pretty, v.msg))
+            # a function that addresses the output at one computed limb only (no loop over limbs, no forwarder) leaves the other limbs stale
+            single = single_limb_writer(p, f, si)
+            if single is not None:
+                res.bad(rule, f.pretty, "stale-limb:single-limb-writer", "%s (overwrite-type operation) writes the output only at limb `%s` and has no loop over the remaining limbs: they keep their previous contents whenever the result has more than one limb"
+                        % (f.pretty, single[0]), site=f.where(single[1]))
+            else:
+                res.undec(rule, "%s: %s" % (f.pretty, v.msg))
     return n_ow, covered
+
+
+def single_limb_writer(p, f, si):
+    if si.out is None:
+        return None
+    out_l = si.out[0]
+    g = CFG(f)
+    flow = Flow(f, transparent=wr.VIEW_T)
+    sym = Sym(f, Flow(f))
+    ats = []
+    for bi, t in f.calls():
+        d = f.callee_def(t) or {}
+        if d.get("n") == "at_mut" and len(t["a"]) == 3 and any(r[0] == "param" and r[1] == out_l for r in flow.op_roots(t["a"][0])):
+            ats.append((bi, t))
+        elif d.get("u", "").startswith(("poulpy_cpu_ref::", "poulpy_cpu_avx::")) and d.get("n") not in ("at_mut", "at", "to_mut", "to_ref"):
+            # hands the output to another library function: not a leaf writer
+            for a in t["a"]:
+                if a[0] in ("c", "m") and f.local_ty(a[1][0]).get("r", "").startswith("&mut") and any(r[0] == "param" and r[1] == out_l for r in flow.op_roots(a)) \
+                        and not any(r[0] == "call" for r in Flow(f).op_roots(a)):
+                    return None
+    if len(ats) != 1 or p.closures_of(f):
+        return None
+    bi, t = ats[0]
+    if g.innermost_loop(bi) is not None:
+        return None
+    return (repr(sym.operand(t["a"][2])), t["l"])
 
 
 def wr2(p, res, restrict=None, rule="WR-2"):
@@ -1082,6 +1114,75 @@ def wr8(p, res, rule="WR-8"):
     return n
 
 
+# ------------------------------------------------------------------ WR-2b
+def wr2b(p, res, rule="WR-2"):
+    """raw-offset writers: a kernel that receives a slice of `X.raw_mut()` of a column-selected output receives the column as well - in the offset of
+    the slice or in another argument of the same call"""
+    n = 0
+    for f, si in sorted(wr.shape_functions(p, SHAPE_PREFIXES), key=lambda x: x[0].uid):
+        if f.is_test() or si.out is None:
+            continue
+        out_l, out_c, out_n = si.out
+        raws = [bi for bi, t in f.calls() if (f.callee_def(t) or {}).get("n") == "raw_mut" and t["a"]
+                and any(r[0] == "param" and r[1] == out_l for r in Flow(f, transparent=WR5_VIEWS).op_roots(t["a"][0]))]
+        if not raws:
+            continue
+        plain = Flow(f)
+        sym = Sym(f, plain)
+        chain = Flow(f, transparent=("index_mut", "index", "deref_mut", "as_mut", "split_at_mut"))
+        col_atom = ("p", out_c, ())
+
+        def mentions_col(poly):
+            return "('p', %d, ())" % out_c in repr(poly.key())
+
+        for bi, t in f.calls():
+            d = f.callee_def(t) or {}
+            cn = d.get("n", "")
+            if cn in ("raw_mut", "index_mut", "index", "split_at_mut", "len", "as_mut_ptr") or not d.get("u", "").startswith("poulpy_"):
+                continue
+            hit = None
+            for ai, a in enumerate(t["a"]):
+                if a[0] not in ("c", "m") or not f.local_ty(a[1][0]).get("r", "").startswith("&mut"):
+                    continue
+                if any(r[0] == "call" and r[1] in raws for r in chain.op_roots(a)):
+                    hit = ai
+            if hit is None:
+                continue
+            n += 1
+            ok = False
+            # column in another argument
+            for ai, a in enumerate(t["a"]):
+                if ai != hit and a[0] in ("c", "m", "k"):
+                    try:
+                        if mentions_col(sym.operand(a)):
+                            ok = True
+                    except Exception:
+                        pass
+            # column in the offset of the slice (index_mut range starts on the way from raw_mut to the argument)
+            seen, work = set(), [r for r in plain.op_roots(t["a"][hit])]
+            while work and not ok:
+                r = work.pop()
+                if r in seen or r[0] != "call":
+                    continue
+                seen.add(r)
+                t2 = f.blocks[r[1]]["t"]
+                n2 = (f.callee_def(t2) or {}).get("n")
+                if n2 in ("index_mut", "split_at_mut") and len(t2["a"]) == 2:
+                    for pth in (("start",), ("end",), ()):
+                        if mentions_col(sym.operand(t2["a"][1], pth)):
+                            ok = True
+                    work.extend(plain.op_roots(t2["a"][0]))
+                elif n2 in ("deref_mut", "as_mut"):
+                    work.extend(plain.op_roots(t2["a"][0]))
+            if ok:
+                res.ok(rule, {"fn": f.pretty, "raw_writer": cn, "column": "in the offset or in another argument"} if n % 3 == 1 else None)
+            else:
+                res.bad(rule, f.pretty, "raw-write-ignores-column:%s" % cn,
+                        "%s hands `%s.raw_mut()` to `%s` without the column `%s_col` entering the slice offset or any argument of the call: the result lands at column 0 of a multi-column `%s` and the selected column stays stale"
+                        % (f.pretty, out_n, cn, out_n, out_n), site=f.where(t["l"]))
+    return n
+
+
 def run(res, tier):
     res.level = "other"
     res.explanation = ("Shape-level clauses of C11 on MIR of every HAL shape function of the reference and AVX crates (functions with an (X, X_col) operand pair): for overwrite-type "
@@ -1119,6 +1220,8 @@ def run(res, tier):
         res.floor("COL-2", "read operands indexed by a column loop", nc2, 10)
         n6 = wr6(p, res)
         res.floor("WR-6", "shape functions with a carry buffer", n6, 6)
+        n2b = wr2b(p, res)
+        res.floor("WR-2", "raw-offset writers of a column-selected output", n2b, 1)
         n8 = wr8(p, res)
         res.floor("WR-8", "for_each bodies operating on a result column", n8, 1)
         n7 = wr7(p, res)
